@@ -15,7 +15,8 @@ import ast
 from ..astutil import calls_in, call_name, where
 from ..facts import instance_fields
 from .. import analysis
-from ..model import AnalysisError, FuncInfo, unparse, walk_no_nested
+from ..model import AnalysisError, FuncInfo, unparse, walk_no_nested, canonical_name
+from ..symtext import Expander
 from ..raises import Raises
 from . import common_tables as ct
 from .rules_card import format_cardinality_rule, cardinality_validation_rule, cardinality_roundtrip
@@ -61,9 +62,10 @@ def run(prog, rep):
                     good = isinstance(v, ast.Constant) and v.value is None
                     exp = "None in the constructor"
                 elif f.kind == "setter" and f.name == prop:
-                    good = isinstance(v, ast.Call) and call_name(v) == "format_cardinality" and len(v.args) == 1 \
-                        and unparse(v.args[0]) == f.params[1]
-                    exp = "format_cardinality(%s)" % f.params[1]
+                    vx = Expander(f).expand(v) if v is not None else None
+                    good = isinstance(vx, ast.Call) and canonical_name(prog, f, vx.func) == "util.format_cardinality" and len(vx.args) == 1 \
+                        and unparse(vx.args[0]) == f.params[1]
+                    exp = "odml.util.format_cardinality(%s)" % f.params[1]
                 else:
                     good = False
                     exp = "no store outside __init__ and the %s setter" % prop
@@ -86,16 +88,16 @@ def run(prog, rep):
             if setter is None:
                 raise AnalysisError("%s.%s setter vanished" % (cname, prop))
             rep.saw_function(setter)
-            r = prog.resolve_expr_to_symbol(setter.module, ast.Name(id="format_cardinality", ctx=ast.Load()))
-            rep.check(getattr(r, "qualname", None) == "odml.util.format_cardinality", "PROV-5",
-                      "%s.%s setter uses odml.util.format_cardinality" % (cname, prop), "ok",
-                      "format_cardinality in %s resolves to %r" % (setter.module.name, r), setter.where)
             # the store is the first statement that has an effect (nothing written before the call can raise)
             body = [s for s in setter.node.body if not (isinstance(s, ast.Expr) and isinstance(s.value, ast.Constant))]
-            first_ok = bool(body) and isinstance(body[0], ast.Assign) and any(
-                isinstance(t, ast.Attribute) and t.attr == field for t in body[0].targets)
+            pre = []
+            for st0 in body:
+                if isinstance(st0, ast.Assign) and any(isinstance(t, ast.Attribute) and t.attr == field for t in st0.targets):
+                    break
+                pre.append(st0)
+            first_ok = len(pre) < len(body) and all(isinstance(st0, ast.Assign) and all(isinstance(t, ast.Name) for t in st0.targets) for st0 in pre)
             rep.check(first_ok, "PROV-5", "%s.%s setter validates before any other effect" % (cname, prop),
-                      "the validated store is the first statement", "statements precede the validated store in the setter: "
+                      "only local assignments precede the validated store", "statements with effects precede the validated store in the setter: "
                       "a refused assignment may leave partial effects", setter.where)
     # set_*_cardinality helpers
     for cname, meth, prop in (("BaseProperty", "set_values_cardinality", "val_cardinality"),
@@ -106,7 +108,7 @@ def run(prog, rep):
             raise AnalysisError("%s.%s vanished" % (cname, meth))
         rep.saw_function(f)
         body = [s for s in f.node.body if not (isinstance(s, ast.Expr) and isinstance(s.value, ast.Constant))]
-        good = len(body) == 1 and isinstance(body[0], ast.Assign) and unparse(body[0].targets[0]) == "self.%s" % prop \
+        good = len(body) == 1 and isinstance(body[0], ast.Assign) and unparse(body[0].targets[0]) == "%s.%s" % (f.params[0], prop) \
             and isinstance(body[0].value, ast.Tuple) and [unparse(e) for e in body[0].value.elts] == f.params[1:3]
         rep.check(good, "PROV-5", "%s.%s assigns (min, max) through the setter" % (cname, meth), "self.%s = (%s, %s)" % (prop, f.params[1], f.params[2]),
                   "%s does not simply assign (min_val, max_val) to self.%s" % (meth, prop), f.where,
